@@ -298,7 +298,7 @@ def run_keys(sess, text, cur, opname, mname, c1, c2):
     try:
         def go():
             sess.feed(digits(c1) + OPS[opname][0] + digits(c2) + m["keys"])
-        with_watchdog(go, 5)
+        with_watchdog(go, WATCHDOG[0])
     except BaseException as e:  # noqa
         if isinstance(e, (KeyboardInterrupt, SystemExit)):
             raise
@@ -310,7 +310,7 @@ def run_keys(sess, text, cur, opname, mname, c1, c2):
     if m["move"] and not (mname in ("G", "0") and (c1 or 1) * (c2 or 1) > 1):
         sess.reset(text, cur, last_find)
         try:
-            with_watchdog(lambda: sess.feed(digits((c1 or 1) * (c2 or 1)) + m["keys"]), 5)
+            with_watchdog(lambda: sess.feed(digits((c1 or 1) * (c2 or 1)) + m["keys"]), WATCHDOG[0])
             alone = sess.session.default_buffer.cursor_position
             if sess.session.default_buffer.text != text:
                 alone = -100
@@ -319,6 +319,77 @@ def run_keys(sess, text, cur, opname, mname, c1, c2):
                 raise
             alone = -99
     return obs, tobj, alone
+
+
+def run_session(sess, text, cur, cmds):
+    """A multi-command session.  Returns (final canonical result, per-command records); a record is
+    (cmd, pre_text, pre_cursor, obs_of_this_command, tobj, failed)."""
+    from prompt_toolkit.document import Document
+    last = cmds[-1]
+    lm = MOTIONS.get(last[3])
+    last_find = lm["char"] if (lm and lm["group"] == "char-find-repeat" and lm["char"]) else None
+    sess.reset(text, cur, last_find)
+    b = sess.session.default_buffer
+    app = sess.app
+    recs = []
+    status = 0
+    last_reg = None
+    last_tobj, last_failed = None, False
+    for cmd in cmds:
+        c1, opname, c2, end = cmd
+        pre_t, pre_c = b.text, b.cursor_position
+        ring0 = len(app.clipboard._ring)
+        regs0 = dict(app.vi_state.named_registers)
+        sess.captured = None
+        try:
+            def go():
+                keys = digits(c1) + (OPS[opname][0] + digits(c2) if opname else [])
+                if end == "esc":
+                    sess.feed(keys + ["escape"])
+                    sess.flush()
+                elif end == "f-esc":
+                    sess.feed(keys + ["f", "escape"])
+                    sess.flush()
+                else:
+                    sess.feed(keys + MOTIONS[end]["keys"])
+            with_watchdog(go, WATCHDOG[0])
+        except BaseException as e:  # noqa
+            if isinstance(e, (KeyboardInterrupt, SystemExit)):
+                raise
+            status = exc_status(e)
+        o = sess.observe(status)
+        ring = list(app.clipboard._ring)
+        o["clip"] = [S(ring[0].text), SELT[ring[0].type.value]] if len(ring) > ring0 else None
+        o["reg"] = None
+        for k, v in app.vi_state.named_registers.items():
+            if regs0.get(k) is not v:
+                o["reg"] = [ord(k) if len(k) == 1 else -1, [S(v.text), SELT[v.type.value]]]
+                last_reg = o["reg"]
+        tobj, failed = sess.captured, False
+        if opname and end in MOTIONS:
+            m = MOTIONS[end]
+            n = (c1 or 1) * (c2 or 1)
+            try:
+                if end == "%" and not (c1 or c2):
+                    failed = Document(pre_t, pre_c).find_matching_bracket_position() == 0
+                else:
+                    failed = bool(m["failed"](Document(pre_t, pre_c), n))
+            except AssertionError:
+                failed = False
+            if m["tok"] is None:
+                failed = tobj is not None and tobj[0] == 0 and tobj[1] == 0
+            if tobj is not None:
+                last_tobj, last_failed = tobj, failed and m["tok"] is not None
+        recs.append((cmd, pre_t, pre_c, o, tobj, failed))
+        if status != 0 or o["ins"]:
+            break
+    ring = list(app.clipboard._ring)
+    final = dict(recs[-1][3])
+    final["clip"] = [S(ring[0].text), SELT[ring[0].type.value]] if ring else None
+    final["reg"] = last_reg
+    if len(recs) < len(cmds) and status == 0:
+        final["status"] = 3
+    return canon(final, last_tobj, last_failed), recs
 
 
 def run_object(sess, text, cur, opname, tobj, arg, keydata):
@@ -341,7 +412,7 @@ def run_object(sess, text, cur, opname, tobj, arg, keydata):
                                previous_key_sequence=[], is_repeat=False)
             ty = [TextObjectType.EXCLUSIVE, TextObjectType.INCLUSIVE, TextObjectType.LINEWISE, TextObjectType.BLOCK][tobj[2]]
             f(ev, TextObject(tobj[0], tobj[1], ty))
-        with_watchdog(go, 5)
+        with_watchdog(go, WATCHDOG[0])
     except BaseException as e:  # noqa
         if isinstance(e, (KeyboardInterrupt, SystemExit)):
             raise
@@ -534,8 +605,8 @@ def rand_text(rng, maxlen):
     return "".join(rng.choice(RAND_ALPHA) for _ in range(n))[:maxlen]
 
 
-COUNTS_Q = [(None, None), (2, None), (None, 5), (2, 3)]
-COUNTS_T = [(None, None), (2, None), (None, 5), (2, 5), (None, 2), (101, None)]
+COUNTS_Q = [(None, None), (2, None), (None, 10), (2, 3)]
+COUNTS_T = [(None, None), (2, None), (None, 5), (2, 5), (101, None), (None, 10), (2, 10), (None, 101)]
 
 
 def key_case(text, cur, opname, mname, c1, c2):
@@ -556,8 +627,8 @@ def gen_cases(chk):
     texts = all_texts(maxn)
     # stratum: probability of keeping a (text, cursor, op, motion, count) point
     p_d = 1.0 if thorough else 0.10
-    p_o = 0.006
-    p_d4 = 0.05
+    p_o = 0.004 if thorough else 0.006
+    p_d4 = 0.03
     for t in texts:
         curs = nav_cursors(t)
         pd = p_d if len(t) <= 3 else p_d4
@@ -579,6 +650,28 @@ def gen_cases(chk):
         c1, c2 = rng.choice(COUNTS_T)
         cases.append(key_case(t, cur, rng.choice(OP_ORDER), rng.choice(mnames), c1, c2))
         dist["random_key"] += 1
+    # sessions: a cancelled operator (Esc, f<Esc>) or a completed command, then another command
+    nsess = 30000 if thorough else 3500
+    plain_ops = ["d", "y", "g~", "gU", ">"]
+    sess_motions = [k for k, v in MOTIONS.items() if v["group"] != "char-find-repeat"]
+    small12 = [t for t in all_texts(3) if t]
+    for _ in range(nsess):
+        t = rng.choice(small12) if rng.random() < 0.35 else rand_text(rng, 24)
+        cur = rng.choice(nav_cursors(t))
+        cmds = []
+        r = rng.random()
+        if r < 0.6:
+            for _k in range(rng.choice([1, 1, 2])):
+                cmds.append((rng.choice([None, 3, 4, 10]), rng.choice(OP_ORDER), rng.choice([None, None, 2, 10]),
+                             rng.choice(["esc", "esc", "f-esc"])))
+        else:
+            cmds.append((rng.choice([None, 2, 3]), rng.choice(plain_ops), rng.choice([None, None, 2]),
+                         rng.choice(["l", "w", "h", "e", "$", "b", "j", "iw"])))
+        c1, c2 = rng.choice(COUNTS_T)
+        kc = key_case(t, cur, rng.choice(OP_ORDER), rng.choice(sess_motions), c1, c2)
+        cmds.append((kc[5], kc[3], kc[6], kc[4]))
+        cases.append(("S", t, cur, cmds))
+        dist["sessions"] = dist.get("sessions", 0) + 1
     # object level: arbitrary TextObject(start, end, type), any cursor 0..len
     nobj = 40000 if thorough else 4000
     small = all_texts(3)
@@ -598,29 +691,63 @@ def gen_cases(chk):
     return cases, dist
 
 
+def enc_digits(n):
+    return [[1, int(ch)] for ch in digits(n)]
+
+
+def enc_motion(mname, tobj=None):
+    m = MOTIONS[mname]
+    if mname == "0":
+        return [[1, 0]]               # the digit key: a motion only while no count is being typed
+    if m["tok"] is None:
+        return [[4, [0, 0, 0, 0] if tobj is None else [0, tobj[0], tobj[1], tobj[2]]]]
+    return [[4, list(m["tok"])]]
+
+
+def enc_op(opname):
+    return [[2, list(OPS[opname][1]), [ord(k) for k in OPS[opname][0]]]]
+
+
 def model_case(case, tobj=None):
-    """the sx case given to the Coq model: (text cursor op arg count-typed operator-keys tok fix)"""
+    """the sx case given to the Coq model.  Key level: a session (text cursor (key ...));
+    object level: (text cursor op arg count-typed operator-keys tok fix)"""
     if case[0] == "K":
         _, text, cur, opname, mname, c1, c2 = case
-        m = MOTIONS[mname]
-        n = (c1 or 1) * (c2 or 1)
-        hc = 1 if (c1 or c2) else 0
-        kd = [ord(k) for k in OPS[opname][0]]
-        if m["tok"] is None:
-            if tobj is None:
-                tok = [0, 0, 0, 0]
-            else:
-                tok = [0, tobj[0], tobj[1], tobj[2]]
-        else:
-            tok = list(m["tok"])
-        return [S(text), cur, list(OPS[opname][1]), n, hc, kd, tok, 1]
+        return [S(text), cur, enc_digits(c1) + enc_op(opname) + enc_digits(c2) + enc_motion(mname, tobj)]
+    if case[0] == "S":
+        _, text, cur, cmds = case
+        keys = []
+        for (c1, opname, c2, end) in cmds:
+            keys += enc_digits(c1)
+            if opname:
+                keys += enc_op(opname) + enc_digits(c2)
+            keys += [[3]] if end in ("esc", "f-esc") else enc_motion(end, tobj)
+        return [S(text), cur, keys]
     _, text, cur, opname, tob, arg, keyd = case
     # the operator function installed by the operator key overwrites the event's key sequence
     # with the operator's own keys, whatever the fabricated event carries
     return [S(text), cur, list(OPS[opname][1]), arg, 1, [ord(k) for k in OPS[opname][0]], [0, tob[0], tob[1], tob[2]], 0]
 
 
+def alone_model_case(case, alone):
+    """the motion typed alone as a model session + the implementation's canonical result"""
+    _, text, cur, opname, mname, c1, c2 = case
+    n = (c1 or 1) * (c2 or 1)
+    mc = [S(text), cur, enc_digits(n) + enc_motion(mname)]
+    if alone < 0:
+        return mc, [99, S(text), cur, [], [], 0, [], 0]
+    return mc, [0, S(text), alone, [], [], 0, [], 0]
+
+
+def cmd_keys(cmd):
+    c1, opname, c2, end = cmd
+    tail = {"esc": "<Esc>", "f-esc": "f<Esc>"}.get(end, " " + end)
+    return "".join(digits(c1)) + (opname or "") + "".join(digits(c2)) + tail
+
+
 def describe_case(case):
+    if case[0] == "S":
+        return "text=%r cursor=%d keys=%r" % (case[1], case[2], "  ".join(cmd_keys(c) for c in case[3]))
     if case[0] == "K":
         _, text, cur, opname, mname, c1, c2 = case
         return "text=%r cursor=%d keys=%r" % (text, cur, "".join(digits(c1)) + opname + "".join(digits(c2)) + " " + mname)
@@ -628,8 +755,23 @@ def describe_case(case):
     return "text=%r cursor=%d operator=%s TextObject%r arg=%d key_sequence=%r" % (text, cur, opname, tuple(tob), arg, keyd)
 
 
+WATCHDOG = [5]
+
+
 def run_impl(sess, case):
-    """-> (canonical result, obs, tobj, failed, alone)"""
+    """-> (canonical result, obs, tobj, failed, alone).  A watchdog expiry (status 98) on a shared,
+    loaded machine is retried once with a 60 s budget before it is believed."""
+    out = run_impl1(sess, case)
+    if out[0][0] == 98:
+        WATCHDOG[0] = 60
+        try:
+            out = run_impl1(sess, case)
+        finally:
+            WATCHDOG[0] = 5
+    return out
+
+
+def run_impl1(sess, case):
     from prompt_toolkit.document import Document
     if case[0] == "K":
         _, text, cur, opname, mname, c1, c2 = case
@@ -648,9 +790,54 @@ def run_impl(sess, case):
         if obs["status"] == 1 and tobj is None:
             failed = False      # the text-object function itself raised
         return canon(obs, tobj, failed and m["tok"] is not None), obs, tobj, failed, alone
+    if case[0] == "S":
+        res, recs = run_session(sess, case[1], case[2], case[3])
+        return res, recs, None, False, None
     _, text, cur, opname, tob, arg, keyd = case
     obs = run_object(sess, text, cur, opname, tob, arg, keyd)
     return canon(obs, tob, False), obs, tuple(tob), False, None
+
+
+def oracle_session(recs):
+    """the oracle applied to every command of a session, each against its own pre-state"""
+    for (cmd, pre_t, pre_c, o, tobj, failed) in recs:
+        c1, opname, c2, end = cmd
+        if end in ("esc", "f-esc"):
+            if o["status"] != 0 or o["text"] != pre_t or o["cursor"] != pre_c or o["clip"] is not None or o["reg"] is not None or o["pending"]:
+                return ("an operator cancelled with Escape changed the text, the cursor or a register, or stayed pending", "cancelled-operator", "cut")
+            continue
+        if not opname:
+            continue
+        bad = oracle(pre_t, pre_c, opname, MOTIONS[end], (c1 or 1) * (c2 or 1), o, tobj, failed, None)
+        if bad:
+            return (bad[0] + " [command %r of the session]" % cmd_keys(cmd), bad[1], OPGROUP[OPS[opname][2]])
+        # the count bookkeeping: the object handed to the operator must be the one the motion gives for
+        # count = (count before the operator) x (count before the motion), from this command only
+        if tobj is not None and MOTIONS[end]["move"] and end not in ("G", "0") and o["status"] == 0:
+            exp = expected_start(pre_t, pre_c, end, (c1 or 1) * (c2 or 1), bool(c1 or c2))
+            if exp is not None and exp != tobj[0]:
+                return ("the operator was applied to a text object starting at %+d, but <count x count> %s from here starts at %+d [command %r]" % (
+                    tobj[0], end, exp, cmd_keys(cmd)), "operator-count:" + MOTIONS[end]["group"], OPGROUP[OPS[opname][2]])
+    return None
+
+
+def expected_start(text, cur, mname, n, hc):
+    """relative target of a few plain motions for count n, straight from the real Document queries"""
+    from prompt_toolkit.document import Document
+    d = Document(text, cur)
+    if mname in ("l", " ", "right"):
+        return d.get_cursor_right_position(count=n)
+    if mname in ("h", "left"):
+        return d.get_cursor_left_position(count=n)
+    if mname == "w":
+        return d.find_next_word_beginning(count=n) or d.get_end_of_document_position()
+    if mname == "W":
+        return d.find_next_word_beginning(count=n, WORD=True) or d.get_end_of_document_position()
+    if mname == "b":
+        return d.find_start_of_previous_word(count=n) or 0
+    if mname == "$":
+        return d.get_end_of_line_position()
+    return None
 
 
 # --------------------------------------------------------------------------
@@ -673,6 +860,7 @@ def main(tier):
     cases = corpus + cases
     sess = Session()
     impl_results, mcases = [], []
+    extra_cases, extra_results = [], []      # the motions typed alone, as model sessions
     oracle_bad = set()
     fam_count = {}
     nfailed = 0
@@ -680,52 +868,66 @@ def main(tier):
         for i, c in enumerate(cases):
             res, obs, tobj, failed, alone = run_impl(sess, c)
             impl_results.append(res)
-            mcases.append(model_case(c, tobj))
-            changed = obs["text"] != c[1] or obs["cursor"] != c[2] or obs["clip"] is not None or obs["reg"] is not None
+            mcases.append(model_case(c, obs[-1][4] if c[0] == "S" else tobj))
+            o_ = obs[-1][3] if c[0] == "S" else obs
+            changed = o_["text"] != c[1] or o_["cursor"] != c[2] or o_["clip"] is not None or o_["reg"] is not None
             chk.count_case(mcases[-1], changed)
             nfailed += 1 if failed else 0
-            if c[0] == "K":
-                m = MOTIONS[c[4]]
-                n = (c[5] or 1) * (c[6] or 1)
-                bad = oracle(c[1], c[2], c[3], m, n, obs, tobj, failed, alone)
-            else:
-                bad = oracle(c[1], c[2], c[3], None, c[5], obs, tobj, obj_failed(c), None) if in_bounds(c) else None
+            bad = judge(c, obs, tobj, failed, alone)
+            if c[0] == "K" and alone is not None:
+                amc, ares = alone_model_case(c, alone)
+                extra_cases.append(amc)
+                extra_results.append(ares)
             if bad:
                 oracle_bad.add(i)
-                clause, fam = bad
-                cls = OPS[c[3]][2]
-                fam_count[(fam, OPGROUP[cls])] = fam_count.get((fam, OPGROUP[cls]), 0) + 1
+                clause, fam, og = bad
+                fam_count[(fam, og)] = fam_count.get((fam, og), 0) + 1
+                obs = o_
                 chk.violation("oracle", "%s (%s -> status=%d text=%r cursor=%d clipboard=%r register=%r)" % (
                     clause, describe_case(c), obs["status"], obs["text"], obs["cursor"],
                     show_cd(obs["clip"]), show_reg(obs["reg"])),
-                    {"family": fam, "opgroup": OPGROUP[cls]},
+                    {"family": fam, "opgroup": og},
                     {"case": list(c), "observed": obs, "text_object": tobj, "failed": failed, "motion_alone_cursor": alone,
                      "clause": clause,
                      "how": "PromptSession(vi_mode=True, multiline=True); buffer = Document(text, cursor); navigation mode; feed the keys (harness/c08.py run_keys / run_object)"})
             if i % 1499 == 0:
+                obs = o_
                 chk.sample({"case": describe_case(c), "impl": {k: obs[k] for k in ("status", "text", "cursor", "clip", "reg")},
                             "text_object": tobj, "failed": failed})
     finally:
         sess.close()
+    n_main = len(mcases)
+    mcases += extra_cases
+    impl_results += extra_results
+    dist["motion_alone_sessions"] = len(extra_cases)
     chk.coverage["input_distribution"] = dict(dist, corpus=len(corpus), failed_or_empty_motions=nfailed,
                                               oracle_families={"%s/%s" % k: v for k, v in sorted(fam_count.items())})
 
     def tag2(c, a, m):
-        # c is the model case: [text, cur, op, arg, keys, tok, fix]
+        # c is the model case: a session [text, cur, keys] or an object-level command
         fields = ["status", "text", "cursor", "clipboard", "register", "insert-mode", "text-object", "failed"]
         diff = [fields[j] for j in range(min(len(a), len(m) if isinstance(m, list) else 0, 8)) if a[j] != m[j]]
+        if len(c) == 3:
+            ops = [k[1][0] for k in c[2] if k[0] == 2]
+            toks = [k[1][0] for k in c[2] if k[0] == 4]
+            return {"opkind": ops[-1] if ops else 0, "tok": toks[-1] if toks else -1, "keys": len(c[2]), "differs": ",".join(diff) or "shape"}
         return {"opkind": c[2][0], "tok": c[6][0], "differs": ",".join(diff) or "shape"}
+
+    def desc2(c, a, m):
+        if len(c) == 3:
+            return "text=%r cursor=%d session=%r impl=%r model=%r" % (unS(c[0]), c[1], show_keys(c[2]), show_res(a), show_res(m))
+        return "text=%r cursor=%d op=%r arg=%d count_typed=%d opkeys=%r tok=%r impl=%r model=%r" % (
+            unS(c[0]), c[1], c[2], c[3], c[4], unS(c[5]), c[6], show_res(a), show_res(m))
 
     model_results, nbad = correspondence(
         chk, "c08", mcases, impl_results, tag2,
-        describe=lambda c, a, m: "text=%r cursor=%d op=%r arg=%d count_typed=%d opkeys=%r tok=%r impl=%r model=%r" % (
-            unS(c[0]), c[1], c[2], c[3], c[4], unS(c[5]), c[6], show_res(a), show_res(m)),
+        describe=desc2,
         oracle_failed=lambda i: i in oracle_bad)
 
     k = 1500 if chk.tier == "thorough" else 300
     idx = sorted(chk.rng.sample(range(len(mcases)), min(k, len(mcases))))
     pairs = [(mcases[i], impl_results[i]) for i in idx]
-    bad, logs = vm_crosscheck(PROP, "run_C08", "Model.C08_TextObjects", pairs)
+    bad, logs = vm_crosscheck(PROP, "run_C08", "Model.C08_Session", pairs)
     chk.coverage["vm_compute_crosschecked"] = len(pairs)
     model_bad = set(i for i, (a, m) in enumerate(zip(impl_results, model_results)) if sx_norm(a) != m)
     vm_bad = set(idx[b] for b in bad if isinstance(b, int))
@@ -745,7 +947,7 @@ def main(tier):
         "name+data+type, insert mode, the TextObject returned by the real text-object function, failed flag. non-trivial = text, cursor "
         "or a register changed; distinct by hash of the model case" % (
             4 if thorough_(chk) else 3, ALPHA, len(MOTIONS), COUNTS_T if thorough_(chk) else COUNTS_Q,
-            "100%" if thorough_(chk) else "10%", "5%" if thorough_(chk) else "n/a", "0.6%"))
+            "100%" if thorough_(chk) else "10%", "3%" if thorough_(chk) else "n/a", "0.4%" if thorough_(chk) else "0.6%"))
     chk.assumptions += [
         "a count of 1 typed explicitly (1dw) is not generated: counts are absent or > 1",
         "vi_mode() is true in Document.selection_ranges (every case runs under a Vi application)",
@@ -783,6 +985,24 @@ def uncovered_bindings():
                   [list(k) for k in have_op if not covered(k, typed_op)])
 
 
+def judge(c, obs, tobj, failed, alone):
+    """-> None or (clause, family, opgroup)"""
+    if c[0] == "S":
+        return oracle_session(obs)
+    if c[0] == "K":
+        m = MOTIONS[c[4]]
+        n = (c[5] or 1) * (c[6] or 1)
+        bad = oracle(c[1], c[2], c[3], m, n, obs, tobj, failed, alone)
+        if bad is None and tobj is not None and m["move"] and c[4] not in ("G", "0") and obs["status"] == 0:
+            exp = expected_start(c[1], c[2], c[4], n, bool(c[5] or c[6]))
+            if exp is not None and exp != tobj[0]:
+                bad = ("the operator was applied to a text object starting at %+d, but <count x count> %s from here starts at %+d" % (
+                    tobj[0], c[4], exp), "operator-count:" + m["group"])
+    else:
+        bad = oracle(c[1], c[2], c[3], None, c[5], obs, tobj, obj_failed(c), None) if in_bounds(c) else None
+    return (bad[0], bad[1], OPGROUP[OPS[c[3]][2]]) if bad else None
+
+
 def thorough_(chk):
     return chk.tier == "thorough"
 
@@ -795,6 +1015,21 @@ def obj_failed(c):
 def in_bounds(c):
     _, text, cur, opname, tob, arg, keyd = c
     return 0 <= cur + tob[0] <= len(text) and 0 <= cur + tob[1] <= len(text) and tob[0] <= 0 <= tob[1]
+
+
+def show_keys(ks):
+    out = []
+    for k in ks:
+        if k[0] == 1:
+            out.append(str(k[1]))
+        elif k[0] == 2:
+            out.append(unS(k[2]))
+        elif k[0] == 3:
+            out.append("<Esc>")
+        else:
+            names = [n for n, v in MOTIONS.items() if v["tok"] == tuple(k[1])]
+            out.append("<%s>" % (names[0] if names else "obj%r" % (k[1],)))
+    return " ".join(out)
 
 
 def show_cd(cd):
@@ -824,8 +1059,41 @@ def load_corpus_raw():
                 c = json.load(open(os.path.join(d, f)))["case"]
                 if c[0] == "O":
                     c[4] = tuple(c[4])
+                if c[0] == "S":
+                    c[3] = [tuple(x) for x in c[3]]
                 out.append(c)
     return out
+
+
+def decode_session(mc):
+    """model session case -> ("S", text, cursor, cmds) (None when a key is not typed by the harness)"""
+    text, cur, keys = unS(mc[0]), mc[1], mc[2]
+    cmds, c1, c2, op = [], "", "", None
+    for k in keys:
+        if k[0] == 1 and not (k[1] == 0 and not (c2 if op else c1)):
+            if op:
+                c2 += str(k[1])
+            else:
+                c1 += str(k[1])
+            continue
+        if k[0] == 2:
+            names = [n for n, v in OPS.items() if list(v[1]) == k[1] and [ord(x) for x in v[0]] == k[2]]
+            if not names:
+                return None
+            op = names[0]
+            continue
+        if k[0] == 3:
+            end = "esc"
+        elif k[0] == 1:
+            end = "0"
+        else:
+            names = [n for n, v in MOTIONS.items() if v["tok"] == tuple(k[1])]
+            if not names:
+                return None
+            end = names[0]
+        cmds.append((int(c1) if c1 else None, op, int(c2) if c2 else None, end))
+        c1, c2, op = "", "", None
+    return ("S", text, cur, cmds) if cmds else None
 
 
 def replay(data):
@@ -833,53 +1101,38 @@ def replay(data):
     sess = Session()
     rc = 0
     try:
-        if "case" in rep and rep["case"] and rep["case"][0] in ("K", "O"):
+        c = None
+        if "case" in rep and rep["case"] and rep["case"][0] in ("K", "O", "S"):
             c = list(rep["case"])
             if c[0] == "O":
                 c[4] = tuple(c[4])
+            if c[0] == "S":
+                c[3] = [tuple(x) for x in c[3]]
             c = tuple(c)
-            res, obs, tobj, failed, alone = run_impl(sess, c)
-            print(describe_case(c))
-            print("  -> status=%d text=%r cursor=%d clipboard=%r register=%r insert=%d text_object=%r failed=%r motion_alone_cursor=%r" % (
-                obs["status"], obs["text"], obs["cursor"], show_cd(obs["clip"]), show_reg(obs["reg"]), obs["ins"], tobj, failed, alone))
-            if c[0] == "K":
-                bad = oracle(c[1], c[2], c[3], MOTIONS[c[4]], (c[5] or 1) * (c[6] or 1), obs, tobj, failed, alone)
-            else:
-                bad = oracle(c[1], c[2], c[3], None, c[5], obs, tobj, obj_failed(c), None) if in_bounds(c) else None
-            print("  ORACLE FAILS: %s [%s]" % bad if bad else "  oracle ok")
-            rc = 1 if bad else 0
-            m = run_model("c08", [model_case(c, tobj)])[0]
-            print("  model agrees" if m == sx_norm(res) else "  model differs: %r" % (show_res(m),))
-            if m != sx_norm(res):
-                rc = 1
-        elif "case" in rep:
-            # a correspondence replay holds the model case; rebuild the implementation run from it
+        elif "case" in rep and len(rep["case"]) == 3:
+            print("model session %s\n  impl then  %r\n  model then %r" % (show_keys(rep["case"][2]), show_res(rep.get("impl")), show_res(rep.get("model"))))
+            c = decode_session(rep["case"])
+        elif "case" in rep and len(rep["case"]) == 8:
             mc = rep["case"]
-            print("model case %r\n  impl then  %r\n  model then %r" % (mc, show_res(rep.get("impl")), show_res(rep.get("model"))))
-            text, cur, spec, arg, hc, keys, tok, fx = unS(mc[0]), mc[1], tuple(mc[2]), mc[3], mc[4], mc[5], tuple(mc[6]), mc[7]
-            opname = [k for k, v in OPS.items() if tuple(v[1]) == spec and [ord(x) for x in v[0]] == keys]
-            c = None
-            if opname and fx == 1 and tok[0] != 0:
-                mn = [k for k, v in MOTIONS.items() if v["tok"] == tok]
-                if mn:
-                    c = key_case(text, cur, opname[0], mn[0], arg if hc else None, None)
-            elif opname and fx == 0 and tok[0] == 0:
-                c = ("O", text, cur, opname[0], (tok[1], tok[2], tok[3]), arg, ["w"])
-            if c is None:
-                print("  (cannot rebuild the key sequence of this case)")
-                m = run_model("c08", [mc])[0]
-                print("  model now: %r" % (show_res(m),))
-                rc = 1
-            else:
-                res, obs, tobj, failed, alone = run_impl(sess, c)
-                print("  " + describe_case(c))
-                print("  impl now   %r" % (show_res(sx_norm(res)),))
-                m = run_model("c08", [model_case(c, tobj)])[0]
-                print("  model now  %r" % (show_res(m),))
-                print("  model agrees" if m == sx_norm(res) else "  MODEL AND IMPLEMENTATION DIFFER")
-                rc = 0 if m == sx_norm(res) else 1
-        else:
-            print(rep)
+            opname = [k for k, v in OPS.items() if list(v[1]) == mc[2] and [ord(x) for x in v[0]] == mc[5]]
+            if opname:
+                c = ("O", unS(mc[0]), mc[1], opname[0], (mc[6][1], mc[6][2], mc[6][3]), mc[3], ["w"])
+        if c is None:
+            print("cannot rebuild the keys of this replay file: %r" % (rep,))
+            return 1
+        res, obs, tobj, failed, alone = run_impl(sess, c)
+        print(describe_case(c))
+        o = obs[-1][3] if c[0] == "S" else obs
+        print("  -> status=%d text=%r cursor=%d clipboard=%r register=%r insert=%d text_object=%r failed=%r motion_alone_cursor=%r" % (
+            o["status"], o["text"], o["cursor"], show_cd(o["clip"]), show_reg(o["reg"]), o["ins"],
+            (obs[-1][4] if c[0] == "S" else tobj), (obs[-1][5] if c[0] == "S" else failed), alone))
+        bad = judge(c, obs, tobj, failed, alone)
+        print("  ORACLE FAILS: %s [%s/%s]" % bad if bad else "  oracle ok")
+        rc = 1 if bad else 0
+        tb = obs[-1][4] if c[0] == "S" else tobj
+        m = run_model("c08", [model_case(c, tb)])[0]
+        print("  model agrees" if m == sx_norm(res) else "  MODEL AND IMPLEMENTATION DIFFER: impl %r model %r" % (show_res(sx_norm(res)), show_res(m)))
+        if m != sx_norm(res):
             rc = 1
     finally:
         sess.close()
